@@ -200,8 +200,30 @@ func typeClass(t gschema.Term) string {
 // the result is deterministic) between two JSON texts together with the
 // schema type of the offending position: "<what> @ <required|optional|item|value> <type>".
 func diffClass(s gschema.Schema, want, got string) string {
+	classOf = typeClass
 	return diffTerm(s, s.Objs[0].T, "root", lenientValue(s, want), lenientValue(s, got), 3)
 }
+
+// diffClassCoarse is diffClass with the position named by its coarse type
+// (scalars collapsed, references named by what they resolve to): used where the
+// deviation is another property's finding seen again (Go's, C01) and one kind
+// per root cause is enough.
+func diffClassCoarse(s gschema.Schema, want, got string) string {
+	classOf = func(t gschema.Term) string {
+		if t.K == "array" || t.K == "map" { // what the container holds does not matter to an encoder that drops or keeps it
+			c := t.K
+			if t.Nullable {
+				c += "?"
+			}
+			return c
+		}
+		return coarseType(s, t, 2)
+	}
+	defer func() { classOf = typeClass }()
+	return diffTerm(s, s.Objs[0].T, "root", lenientValue(s, want), lenientValue(s, got), 3)
+}
+
+var classOf = typeClass
 
 func sortedKeys(m map[string]any) []string {
 	ks := make([]string, 0, len(m))
@@ -213,7 +235,7 @@ func sortedKeys(m map[string]any) []string {
 }
 
 func diffTerm(s gschema.Schema, t gschema.Term, pos string, a, b any, budget int) string {
-	at := " @ " + pos + " " + typeClass(t)
+	at := " @ " + pos + " " + classOf(t)
 	if t.K == "ref" {
 		if target, ok := s.Lookup(strings.TrimPrefix(t.A, gschema.Pkg+".")); ok && budget > 0 {
 			d := diffTerm(s, target, pos, a, b, budget-1)
@@ -262,7 +284,7 @@ func diffTerm(s gschema.Schema, t gschema.Term, pos string, a, b any, budget int
 			ft, fp := sub(k)
 			w, ok := y[k]
 			if !ok {
-				return "member dropped: " + valueClass(x[k]) + " @ " + fp + " " + typeClass(ft)
+				return "member dropped: " + valueClass(x[k]) + " @ " + fp + " " + classOf(ft)
 			}
 			if d := diffTerm(s, ft, fp, x[k], w, budget); d != "" {
 				return d
@@ -271,7 +293,7 @@ func diffTerm(s gschema.Schema, t gschema.Term, pos string, a, b any, budget int
 		for _, k := range sortedKeys(y) {
 			if _, ok := x[k]; !ok {
 				ft, fp := sub(k)
-				return "member added: " + valueClass(y[k]) + " @ " + fp + " " + typeClass(ft)
+				return "member added: " + valueClass(y[k]) + " @ " + fp + " " + classOf(ft)
 			}
 		}
 		return ""
